@@ -3,6 +3,7 @@ import ast
 from fractions import Fraction as Fr
 
 from ..srcmodel import AnalysisError
+from ..stages import estimates
 from ..algebra import Poly
 from .. import ndarr
 from ..ndarr import Arr, InterpRaise
@@ -156,7 +157,7 @@ def misuse(ctx):
 
         def thunk(P=P, n=n):
             obj, x = P.build('Derivative', 'multicomplex', 2, n=n, step=P.sym_generator('Min'))
-            return P.interp.getattr(obj, '_derivative')(x, (), {})
+            return estimates(P.interp, obj, x)
         expect_value_error(rep, 'R-MISUSE', 'finite_difference.LogRule._multicomplex_middle_name', fd.relpath,
                            'Derivative(method=multicomplex, n=%d)' % n, thunk, 'multicomplex n>2')
         P2 = Pipeline(repo)
@@ -173,7 +174,7 @@ def misuse(ctx):
         def thunk(P=P, method=method, n=n, order=order, steps=steps):
             gen = P.sym_generator('Min', num_steps=steps, check_num_steps=False)
             obj, x = P.build('Derivative', method, order, n=n, step=gen)
-            return P.interp.getattr(obj, '_derivative')(x, (), {})
+            return estimates(P.interp, obj, x)
         expect_value_error(rep, 'R-MISUSE', 'finite_difference.LogRule._apply', fd.relpath,
                            'Derivative(%s, n=%d, order=%d) with %d steps' % (method, n, order, steps), thunk, 'too few steps')
     # ... for every configuration class: one step fewer than the rule has weights must be refused (the number of weights is
@@ -196,7 +197,7 @@ def misuse(ctx):
                     P.clear_cache()
                     gen = P.sym_generator('Min', num_steps=steps, check_num_steps=False)
                     obj, x = P.build('Derivative', method, order, n=n, step=gen)
-                    return P.interp.getattr(obj, '_derivative')(x, (), {})
+                    return estimates(P.interp, obj, x)
                 expect_value_error(rep, 'R-MISUSE', 'finite_difference.LogRule._apply', fd.relpath,
                                    'Derivative(%s, n=%d, order=%d): rule of %d weights, %d steps' % (method, n, order, size, size - 1),
                                    thunk, 'too few steps')
